@@ -1,6 +1,6 @@
 (* C18 - PBN export is read back by the PBN parser, one game per board.
    Only statements, each closed by [exact]; proofs are in the files imported below. *)
-From BE Require Import Model.Json Model.Schema Model.Pbn Gen.JsonFraming Gen.Schemas Gen.Regexes Proofs.Json Proofs.Pbn Proofs.Pins.
+From BE Require Import Model.Json Model.Schema Model.Pbn Gen.JsonFraming Gen.Schemas Gen.Regexes Proofs.Json Proofs.Pbn Proofs.Pins Gen.PbnFns Proofs.PbnGen Proofs.PbnGenCor.
 From Coq Require Import ZArith.
 Local Open Scope string_scope.
 Local Open Scope nat_scope.
@@ -58,6 +58,63 @@ Theorem C18_regex_pins :
   from_file "parser.py" regexes = pinned_pbn.
 Proof. exact pins_pbn. Qed.
 Print Assumptions C18_regex_pins.
+
+(* write_board_result REGENERATED from the text of pbn_handler/writer.py on every run (harness/gen_pbnw.py) equals the hand model, for every result *)
+Theorem C18_generated_write_board_result_is_hand_model :
+  forall x, g_write_board_result x = write_board_result x.
+Proof. exact g_write_board_result_eq. Qed.
+Print Assumptions C18_generated_write_board_result_is_hand_model.
+
+(* write_line regenerated: the hand model, or the IndexError on the empty string *)
+Theorem C18_generated_write_line :
+  forall s,
+  g_write_line s = match s with EmptyString => None | String _ _ => Some (write_line s) end.
+Proof. exact g_write_line_spec. Qed.
+Print Assumptions C18_generated_write_line.
+
+(* write_tag_pair regenerated: the hand model, or the assertion on the first letter of the tag *)
+Theorem C18_generated_write_tag_pair :
+  forall tag content,
+  g_write_tag_pair tag content =
+  match tag with
+  | String a _ => if is_upper a then Some (write_tag_pair tag content) else None
+  | EmptyString => None end.
+Proof. exact g_write_tag_pair_eq. Qed.
+Print Assumptions C18_generated_write_tag_pair.
+
+Theorem C18_generated_write_header :
+  g_write_header = Some write_header.
+Proof. exact g_write_header_eq. Qed.
+Print Assumptions C18_generated_write_header.
+
+Theorem C18_generated_export_is_hand_model :
+  forall h rs, g_write_file h rs = write_file h rs.
+Proof. exact g_write_file_eq. Qed.
+Print Assumptions C18_generated_export_is_hand_model.
+
+(* the property, for the regenerated writer *)
+Theorem C18_lines_le_255_generated :
+  forall h rs text l, g_write_file h rs = Some text -> In l (lines text) -> String.length l <= 255.
+Proof. exact g_lines_le_255. Qed.
+Print Assumptions C18_lines_le_255_generated.
+
+Theorem C18_roundtrip_generated :
+  forall h rs text, Forall result_ok rs -> g_write_file h rs = Some text ->
+  exists tss, map_opt tags15 rs = Some tss /\ parse_all text = Some tss.
+Proof. exact g_export_roundtrip. Qed.
+Print Assumptions C18_roundtrip_generated.
+
+Theorem C18_separate_games_generated :
+  forall h rs text gs, Forall result_ok rs -> g_write_file h rs = Some text ->
+  parse_all text = Some gs -> length gs = length rs.
+Proof. exact g_export_one_game_per_result. Qed.
+Print Assumptions C18_separate_games_generated.
+
+Theorem C18_as_settings_generated :
+  forall h rs text, Forall result_ok rs -> g_write_file h rs = Some text ->
+  exists ss, parse_board_settings text = Some (Some ss) /\ Forall2 result_matches rs ss.
+Proof. exact g_export_as_settings. Qed.
+Print Assumptions C18_as_settings_generated.
 
 (* non-vacuity: two results, one passed out *)
 Theorem C18_example_results :
